@@ -13,10 +13,26 @@ Proof. reflexivity. Qed.
 Definition analysed_functions : list string :=
   ["bitmap.Allocator.Allocate"; "bitmap.Allocator.Free"; "bitmap.IPv4Allocator.Allocate"; "bitmap.IPv4Allocator.Free";
    "range.Handler4"; "prefix.Handle"; "file.Handler4"; "file.Handler6"; "file.loadFromFile";
-   "server.HandleMsg4"; "server.HandleMsg6"].
+   "file.setupFile"; "file.setupFile.go1"; "file.numRecords"; "server.HandleMsg4"; "server.HandleMsg6"].
 
 Lemma skeletons_cover : map fs_name all_skeletons = analysed_functions.
 Proof. reflexivity. Qed.
+
+(* every function of the owning packages that mentions a guarded location at all is either one of
+   the analysed functions or listed here with the reason why it needs no lock *)
+Definition exempt_functions : list string :=
+  ["plugins/allocators/bitmap:NewIPv4Allocator";        (* constructor: the allocator is not shared yet *)
+   "plugins/range:setupRange";                          (* set-up: the handler has not been handed to the server yet *)
+   "plugins/range:PluginState.registerBackingDB";       (* called by setupRange only *)
+   "plugins/range:PluginState.saveIPAddress";           (* called inside Handler4's critical section: counted as a write access there *)
+   "server:listener4.Serve"; "server:listener6.Serve"   (* take a buffer out of the pool and hand it to HandleMsg4/6 *)
+  ].
+
+Definition mem_str (x : string) (l : list string) : bool := existsb (String.eqb x) l.
+
+Lemma census_covered :
+  forallb (fun f => mem_str f (map fs_name all_skeletons) || mem_str f exempt_functions) census = true.
+Proof. vm_compute. reflexivity. Qed.
 
 Lemma skeletons_all_well_locked : forallb well_locked all_skeletons = true.
 Proof. vm_compute. reflexivity. Qed.
